@@ -87,7 +87,8 @@ func c16Scenario() *explore.Scenario {
 			cfgID := []byte{0x00, 0x01, 0x7f, 0xff}[x.Choose("configid", 4)]
 			suiteDraw := byte(x.Choose("suite", 2))
 			lenDraw := byte(x.Choose("payloadlen", 4))
-			hrr := x.Choose("srv.hrr", 2) == 1
+			hrrKind := x.Choose("srv.hrr", 3) // 0 none, 1 HelloRetryRequest, 2 HelloRetryRequest carrying a cookie
+			hrr := hrrKind != 0
 			spec, _ := tls.UTLSIdToSpec(n.ID)
 			var g *tls.GREASEEncryptedClientHelloExtension
 			for _, e := range spec.Extensions {
@@ -103,7 +104,7 @@ func c16Scenario() *explore.Scenario {
 				r.Obs = "len-index-out-of-range"
 				return
 			}
-			what := fmt.Sprintf("%s configid-draw=%#02x suite-draw=%d len-draw=%d hrr=%v", n.Name, cfgID, suiteDraw, lenDraw, hrr)
+			what := fmt.Sprintf("%s configid-draw=%#02x suite-draw=%d len-draw=%d hrr=%d", n.Name, cfgID, suiteDraw, lenDraw, hrrKind)
 			saved := rand.Reader
 			defer func() { rand.Reader = saved }()
 			type view struct {
@@ -123,8 +124,19 @@ func c16Scenario() *explore.Scenario {
 				}
 				cfg := peer.ClientConfig("example.com")
 				cfg.OmitEmptyPsk = true
-				hs := peer.Run(cfg, n.ID, scfg, peer.Opts{Echo: true, WrapClient: func(e *peer.Endpoint) { ce = e }})
+				var unhook func()
+				hs := peer.Run(cfg, n.ID, scfg, peer.Opts{Echo: true, WrapClient: func(e *peer.Endpoint) { ce = e },
+					OnConns: func(u *tls.UConn, s *tls.Conn) {
+						if hrrKind == 2 {
+							hk := &connHooks{addHRRCookie: rep(0xC0, 32)}
+							hk.Out = func(n int, t uint8, d []byte) []byte { return baseTransform(hk, t, d) }
+							unhook = installHooks(s, hk)
+						}
+					}})
 				rand.Reader = saved
+				if unhook != nil {
+					unhook()
+				}
 				if hs.CPanic != "" {
 					r.Violate("C16|panic", "%s: %s", what, truncStr(hs.CPanic, 300))
 					return
@@ -192,7 +204,9 @@ func c16Scenario() *explore.Scenario {
 					}
 					r.Count("hrr_connections", 1)
 				}
-				if !(hs.OK() && hs.EchoOK) {
+				// (the server refuses a cookie it did not issue in the second hello: completion is required
+				// for cookie-less retries only)
+				if hrrKind != 2 && !(hs.OK() && hs.EchoOK) {
 					r.Violate("C16|handshake-fails|"+errClass(hs.CErr), "%s conn %d: %v / %v", what, conn, hs.CErr, hs.SErr)
 				}
 				views = append(views, v)
@@ -227,7 +241,7 @@ func c16Scenarios(thorough bool) []*explore.Scenario { return []*explore.Scenari
 func init() {
 	register(&Prop{ID: "C16", Level: "exploration", Variant: "A", Scenarios: c16Scenarios,
 		Run: func(c *explore.Check, thorough bool) {
-			c.Rule = "every parrot whose spec carries a GREASE ECH extension x scripted crypto/rand draws {config id 0x00/0x01/0x7f/0xff (+connection index), every cipher-suite candidate index, every payload-length candidate index} x server {no HRR, HRR} x 4 connections with distinct entropy streams: the extension parses as an outer ECH extension, (KDF,AEAD) is a candidate, enc is 32 bytes, payload length is a candidate + 16, after an HRR the extension bytes are identical, and config id / enc / payload differ across connections; handshakes complete. distinct = case"
+			c.Rule = "every parrot whose spec carries a GREASE ECH extension x scripted crypto/rand draws {config id 0x00/0x01/0x7f/0xff (+connection index), every cipher-suite candidate index, every payload-length candidate index} x server {no HRR, HRR, HRR carrying a cookie (verif hook)} x 4 connections with distinct entropy streams: the extension parses as an outer ECH extension, (KDF,AEAD) is a candidate, enc is 32 bytes, payload length is a candidate + 16, after an HRR the extension bytes are identical, and config id / enc / payload differ across connections; handshakes complete (cookie-less retries). distinct = case"
 			c.Assumptions = []string{"crypto/rand.Reader is scripted (single-byte reads = the three index draws), hence one worker"}
 			runAll(c, c16Scenarios(thorough), 0)
 			c.Gate(c.Total.Counters["hrr_connections"] > 50, "non-vacuity: %d HRR connections", c.Total.Counters["hrr_connections"])
